@@ -167,7 +167,11 @@ func genInheritance(r *Rng) (map[string]*inhType, []string) {
 					kid += 2
 					key := fmt.Sprintf("k%d", kid-1)
 					t.own = append(t.own, key)
-					t.nested = map[string]*inhType{key: {bases: []string{cand}, own: []string{fmt.Sprintf("k%d", kid)}}}
+					sub := &inhType{bases: []string{cand}, own: []string{fmt.Sprintf("k%d", kid)}}
+					if r.Chance(1, 3) {
+						sub.own = nil // an empty object that only inherits:  "k": {} // {allOf: "@t"}
+					}
+					t.nested = map[string]*inhType{key: sub}
 					for a := range anc[cand] {
 						cl[a] = true
 					}
